@@ -1,6 +1,7 @@
 """C04 — a P1 readout is reported valid only if its CRC16 and identification check out."""
 from __future__ import annotations
 
+import os
 import re
 
 import lib
@@ -180,6 +181,74 @@ def _through_reader(res, rng, n, family="reader_after_damaged"):
         res.nontriv(("reader", data))
 
 
+_FIRST_USE_CODE = r"""
+import sys, logging
+logging.disable(logging.CRITICAL)
+from han.dlde import DataReadout, ModeDReader
+out = []
+for mode, hx in (a.split(":") for a in sys.argv[1:]):
+    b = bytes.fromhex(hx)
+    try:
+        if mode == "R":                 # through the reader, 7 octets per read()
+            r, got = ModeDReader(), []
+            for i in range(0, len(b), 7):
+                got += r.read(b[i:i + 7])
+            out.append("".join("1" if x.is_valid else "0" for x in got) or "-")
+        else:
+            out.append("1" if DataReadout(b).is_valid else "0")
+    except Exception as ex:
+        out.append("EXC-" + type(ex).__name__)
+print(" ".join(out))
+"""
+
+
+def first_use_verdicts(seq):
+    """is_valid of the readouts of `seq` ([(mode, bytes)]), in this order, in a FRESH interpreter (han imported anew)"""
+    import subprocess
+    import sys
+    env = dict(os.environ, PYTHONPATH=lib.REPO, PYTHONDONTWRITEBYTECODE="1")
+    p = subprocess.run([sys.executable, "-c", _FIRST_USE_CODE] + [f"{m}:{b.hex()}" for m, b in seq], env=env, capture_output=True, text=True, timeout=120)
+    if p.returncode != 0:
+        return ["EXC-process"] * len(seq), p.stderr[-300:]
+    return p.stdout.split(), ""
+
+
+def _first_use(res, rng, n, family="first_readout_of_a_fresh_interpreter"):
+    """is_valid is a function of the readout's bytes - also for the very first readout built after the library is loaded
+    (lazily initialised module-level state is history, too): each case starts a fresh interpreter and asks for the verdicts of 3
+    readouts in order; correctly check-summed, wrong checksum, absent checksum; directly and through the reader."""
+    for _ in range(n):
+        seq = []
+        for _ in range(3):
+            ro = P.gen_readout(rng, with_crc=True, nlines=rng.choice([0, 1, 3]))
+            k = rng.randrange(4)
+            if k == 1:
+                ro = mutate_checksum(rng, ro)
+            elif k == 2:
+                e = ro.find(b"!")
+                ro = ro[:e + 1] + b"\r\n"
+            seq.append((rng.choice("DR") if ro.endswith(b"\n") else "D", ro))
+        got, err = first_use_verdicts(seq)
+        model = lib.drive([f"p1.readout {lib.hexs(b)}" for _, b in seq])
+        for pos, ((mode, b), g, m) in enumerate(zip(seq, got, model)):
+            res.evaluations += 1
+            case = {"op": "p1.first_use", "seq": [[mo, x.hex()] for mo, x in seq], "pos": pos}
+            want = m.split(":")[1] if not m.startswith("EXC") else "EXC"
+            if g != want:
+                res.tie_break(case, g + " " + err, want, family)
+                e = b.find(b"!")
+                crc, after = P.crc16(b[:e + 1]), b[e + 1:]
+                if CHK.match(after) and g in ("0", "1") and want in ("0", "1"):
+                    same = int(after[:4], 16) == crc
+                    res.prop_failure(case, f"readout number {pos + 1} built in a fresh interpreter: checksum text {after[:4]!r}, CRC-16 {crc:04X}, "
+                                           f"reported {'valid' if g == '1' else 'invalid'} (the same bytes later in a process: {'valid' if want == '1' else 'invalid'})"
+                                     if (g == "1") != same or want == "1" else f"verdict {g} differs from {want} for the same bytes later", family)
+                elif g.startswith("EXC"):
+                    res.prop_failure(case, f"readout number {pos + 1} built in a fresh interpreter: {g}", family)
+            res.count(family)
+            res.nontriv(("first", pos, b))
+
+
 def _encoded(res, descs, family):
     """spec-encoded well-formed readouts must be valid with exact payload and identification"""
     reqs = [P.clean_request(b"", [d], []) for d in descs]
@@ -298,6 +367,7 @@ def run(res, tier, seed, widen=1):
     for i in range(0, len(items), 5000):
         _readouts(res, items[i:i + 5000], "from_bytes")
     _through_reader(res, rng, (150 if tier == "quick" else 4000) * widen)
+    _first_use(res, rng, (12 if tier == "quick" else 150) * widen)
     hist = [it for it in items if rng.random() < 0.5]
     for i in range(0, len(hist), 5000):
         _histories(res, hist[i:i + 5000], rng, "accessor_history")
@@ -348,6 +418,13 @@ def replay(payload, res):
         print("int(%r, 16): impl %s model %s" % (t, i, a))
         print("REPLAY", "passes" if i == a else "fails")
         return 0 if i == a else 1
+    if payload["case"].get("op") == "p1.first_use":
+        seq = [(m, bytes.fromhex(x)) for m, x in payload["case"]["seq"]]
+        got, err = first_use_verdicts(seq)
+        model = [m.split(":")[1] if not m.startswith("EXC") else "EXC" for m in lib.drive([f"p1.readout {lib.hexs(b)}" for _, b in seq])]
+        print("fresh interpreter, in order:", got, err, "| the same bytes by the model:", model)
+        print("REPLAY", "passes" if got == model else "fails")
+        return 0 if got == model else 1
     if payload["case"].get("op") == "p1.reader":
         from han.dlde import ModeDReader
         r = ModeDReader()
